@@ -20,7 +20,8 @@ pub unsafe fn execve(
     env_p: *const *const u8,
 ) -> Result<(), Error> {
     let res = syscall!(EXECVE, bin.as_ptr(), arg_v, env_p);
-    // EXECVE doesn't return on success, on err it returns an error code
+    // EXECVE doesn't return on success, on err it returns the negated error code
     // [docs](https://man7.org/linux/man-pages/man2/execve.2.html#RETURN_VALUE)
-    Err(Error::with_code("`EXECVE` syscall failed", res as i32))
+    // Flip the errno
+    Err(Error::with_code("`EXECVE` syscall failed", 0 - res as i32))
 }
